@@ -188,6 +188,10 @@ def scan_assumptions(uf):
             continue
         # name = next fn/struct/type name at or after this line
         name = None
+        m = re.search(r"assume_specification\s*(?:<[^>]*>)?\s*\[\s*([^\]]+)\]", code)
+        if m:
+            found.append(m.group(1).split("::")[-1].strip())
+            continue
         for j in range(k, min(k + 6, len(lines))):
             m = re.search(r"\b(fn|struct|enum|type)\s+(\w+)", lines[j])
             if m:
@@ -397,4 +401,13 @@ RULE_NOTES = {
 }
 
 if __name__ == "__main__":
-    sys.exit(main())
+    try:
+        rc = main()
+    except SystemExit:
+        raise
+    except BaseException as e:  # a crash of the machinery is never an alarm
+        import traceback
+        traceback.print_exc()
+        print("UNDECIDED: internal error in the checker: %r" % (e,))
+        rc = 2
+    sys.exit(rc)
